@@ -17,9 +17,11 @@
      including the moov-tree clause — each moov's children are a clean box sequence with at least one trak, each trak
      has exactly one mdia > minf > stbl chain with exactly one version-0 stco xor co64 whose count fills its box, below
      4 GiB (Lemmas/TreeRel.lean relates the model's lazily parsed tree to the walker region by region).
-  The converse direction of `accepted ↔ Rules` (every file meeting the rules is accepted unless a rewrite overflows)
-  is evaluated on the real code by `Spec_C05` for every generated case (exhaustive top-level layouts up to length 4/5 over a 9-letter alphabet, header pathologies, every
-  moov-tree rule broken in turn, all truncation points of selected files).
+  The converse direction (every file meeting the rules is accepted unless a rewrite overflows), the overflow-refusal
+  clause, the equivalence `C05_accept_iff` and `C05_spec_holds` are in Props/C05Conv.lean (they build on this file).
+  `Spec_C05` is also evaluated on the real code for every generated case (exhaustive top-level layouts up to length 4/5
+  over a 9-letter alphabet, header pathologies, every moov-tree rule broken in turn, all truncation points of selected
+  files).
 -/
 import MediaSan.Mp4.Sanitize
 import MediaSan.Generated.Mp4Consts
